@@ -7,10 +7,13 @@
      - the contents test of XCopyDest against the replay prefix is implied by its model test;
      - the [acks_ok] test at XRecover can never fail: what protects acknowledged batches is the
        enabling condition of DAck.
+     - likewise for the internal values ([IInv] of ProofsDisk10 for [x_ieff]): the replay tests of
+       XObserveInt, XRollbackPoints and XPointState are implied by their model tests.
    This file depends on the exact shape of [xstep]; it is not imported by Props_*.v. *)
 From Coq Require Import ZArith List Bool Arith Lia.
 From Verif Require Import Common.Bytes Scorch.Model Scorch.Corr Scorch.Disk Scorch.DiskCorr
-  Scorch.ProofsCore1 Scorch.ProofsCore3 Scorch.ProofsDisk1 Scorch.ProofsDisk5 Scorch.ProofsDisk9.
+  Scorch.ProofsCore1 Scorch.ProofsCore3 Scorch.ProofsDisk1 Scorch.ProofsDisk5 Scorch.ProofsDisk9
+  Scorch.ProofsDisk10.
 Import ListNotations.
 Local Open Scope Z_scope.
 
@@ -32,7 +35,7 @@ Proof.
     destruct (tev_event (d_core (x_d x)) t) as [ev|]; [|discriminate].
     destruct (tstep (d_core (x_d x)) t); [|discriminate].
     destruct (dstep (x_d x) (DCore ev)) as [d'|] eqn:E; [|discriminate].
-    destruct (st_eqb_root (d_core d') s); [|discriminate].
+    destruct (st_eqb_root (d_core d') s && sub_ok x ev); [|discriminate].
     injection H as H. subst x'. right. exists (DCore ev). cbn [x_d x_eff]. split; [exact E|].
     split; [destruct ev; reflexivity | left; reflexivity].
   - om H. subst x'. right. eexists. split; [exact E | split; [reflexivity | first [left; reflexivity | right; eexists; reflexivity]]].
@@ -65,6 +68,19 @@ Proof.
   - match type of H with (if ?c then _ else _) = _ => destruct c end; [|discriminate].
     injection H as H. subst x'. left. split; reflexivity.
   - match type of H with (if ?c then _ else _) = _ => destruct c end; [|discriminate].
+    injection H as H. subst x'. left. split; reflexivity.
+  - (* XSubmit *) injection H as H. subst x'. left. split; reflexivity.
+  - (* XObserveInt *)
+    match type of H with (if ?c then _ else _) = _ => destruct c end; [|discriminate].
+    injection H as H. subst x'. left. split; reflexivity.
+  - (* XRollbackPoints *)
+    match type of H with (if ?c then _ else _) = _ => destruct c end; [|discriminate].
+    injection H as H. subst x'. left. split; reflexivity.
+  - (* XPointState *)
+    match type of H with (if ?c then _ else _) = _ => destruct c end; [|discriminate].
+    injection H as H. subst x'. left. split; reflexivity.
+  - (* XPointWrite *)
+    match type of H with (if ?c then _ else _) = _ => destruct c end; [|discriminate].
     injection H as H. subst x'. left. split; reflexivity.
 Qed.
 
@@ -229,4 +245,126 @@ Proof.
     intros y [Hy|[]]. subst y. split; [exact DInv_init | intros k []]. }
   destruct (A x Hx) as [_ Ha]. unfold acks_ok. apply forallb_forall. intros k Hk.
   apply Nat.leb_le. exact (Ha k Hk).
+Qed.
+
+(* ---------- internal values ---------- *)
+
+Lemma xstep_sim_i : forall x e x', xstep x e = Some x' ->
+  (x_d x' = x_d x /\ x_ieff x' = x_ieff x)
+  \/ (exists ev, dstep (x_d x) ev = Some (x_d x') /\ x_ieff x' = ieff_step (x_d x) (x_ieff x) ev).
+Proof.
+  intros x e x' H. destruct e; cbn [xstep] in H;
+    try (om H; subst x'; right; eexists; split; [exact E | reflexivity]);
+    try (injection H as H; subst x'; left; split; reflexivity);
+    try (match type of H with (if ?c then _ else _) = _ => destruct c end; [|discriminate];
+         injection H as H; subst x'; left; split; reflexivity).
+  - (* XCore *)
+    destruct (tev_event (d_core (x_d x)) t) as [ev|]; [|discriminate].
+    destruct (tstep (d_core (x_d x)) t); [|discriminate].
+    destruct (dstep (x_d x) (DCore ev)) as [d'|] eqn:E; [|discriminate].
+    destruct (st_eqb_root (d_core d') s && sub_ok x ev); [|discriminate].
+    injection H as H. subst x'. right. exists (DCore ev). cbn [x_d x_ieff]. split; [exact E|].
+    cbn [ieff_step]. destruct ev; cbn [step_iopsl]; rewrite ?app_nil_r; reflexivity.
+  - (* XAck *)
+    destruct (assocZ tag (x_tags x)); [|discriminate].
+    om H. subst x'. right. eexists. split; [exact E | reflexivity].
+  - (* XRecover *)
+    destruct (dstep (x_d x) DRecover) as [d'|] eqn:E; [|discriminate].
+    injection H as H. subst x'. right. exists DRecover. split; [exact E | reflexivity].
+  - (* XCopyDest *)
+    destruct (assocZ epoch (d_pub (x_d x))) as [[? ?]|]; [|discriminate].
+    destruct (assocZ epoch (d_nb (x_d x))); [|discriminate].
+    match type of H with (if ?c then _ else _) = _ => destruct c end; [|discriminate].
+    injection H as H. subst x'. left. split; reflexivity.
+Qed.
+
+Definition XInvI (x : xs) : Prop := DInv (x_eff x) (x_d x) /\ IInv (x_ieff x) (x_d x).
+Definition all_XInvI (xl : list xs) : Prop := forall x, In x xl -> XInvI x.
+
+Lemma XInvI_step : forall x e x', XInvI x -> xstep x e = Some x' -> XInvI x'.
+Proof.
+  intros x e x' [D I] H. split; [exact (XInv_step x e x' D H)|].
+  destruct (xstep_sim_i x e x' H) as [[Hd He]|[ev [Hs He]]].
+  - rewrite Hd, He. exact I.
+  - rewrite He. exact (IInv_step _ _ _ ev _ D I Hs).
+Qed.
+
+Lemma all_XInvI_flat_step : forall xl e,
+  all_XInvI xl -> all_XInvI (flat_map (fun x => match xstep x e with Some z => [z] | None => [] end) xl).
+Proof.
+  intros xl e A z Hz. apply in_flat_map in Hz. destruct Hz as [x [Hx Hz]].
+  destruct (xstep x e) as [z'|] eqn:E; [|destruct Hz]. destruct Hz as [Hz|[]]. subst z'.
+  exact (XInvI_step x e z (A x Hx) E).
+Qed.
+
+Lemma all_XInvI_crash_variants : forall x, XInvI x -> all_XInvI (crash_variants x).
+Proof.
+  intros x I. unfold crash_variants.
+  set (l1 := [x] ++ (if x_ci x then match xstep x XCommit with Some x' => [x'] | None => [] end else [])).
+  assert (A1 : all_XInvI l1).
+  { intros y Hy. unfold l1 in Hy. apply in_app_or in Hy. destruct Hy as [[Hy|[]]|Hy].
+    - subst y. exact I.
+    - destruct (x_ci x); [|destruct Hy]. destruct (xstep x XCommit) as [x'|] eqn:E; [|destruct Hy].
+      destruct Hy as [Hy|[]]. subst y. exact (XInvI_step x XCommit x' I E). }
+  destruct (x_pi x) as [eps|]; [|exact A1].
+  intros y Hy. apply in_app_or in Hy. destruct Hy as [Hy|Hy]; [exact (A1 y Hy)|].
+  exact (all_XInvI_flat_step l1 (XPurge eps) A1 y Hy).
+Qed.
+
+Lemma all_XInvI_step_all : forall xl e, all_XInvI xl -> all_XInvI (xstep_all xl e).
+Proof.
+  intros xl e A.
+  assert (G := all_XInvI_flat_step xl e A).
+  destruct e; try exact G; cbn [xstep_all].
+  - intros z Hz. apply in_flat_map in Hz. destruct Hz as [x [Hx Hz]].
+    exact (all_XInvI_flat_step (crash_variants x) XCrash (all_XInvI_crash_variants x (A x Hx)) z Hz).
+  - intros z Hz. apply in_flat_map in Hz. destruct Hz as [x [Hx Hz]].
+    destruct (acks_ok x); [|destruct Hz].
+    destruct (xstep x XRecover) as [z'|] eqn:E; [|destruct Hz]. destruct Hz as [Hz|[]]. subst z'.
+    exact (XInvI_step x XRecover z (A x Hx) E).
+Qed.
+
+Lemma xrun_all_XInvI : forall evs xl i r xl',
+  all_XInvI xl -> xrun xl evs i = (r, xl') -> all_XInvI xl'.
+Proof.
+  induction evs as [|e evs IH]; intros xl i r xl' A H; cbn [xrun] in *.
+  - injection H as _ H. subst xl'. exact A.
+  - destruct (xstep_all xl e) as [|y ys] eqn:E.
+    + injection H as _ H. subst xl'. exact A.
+    + apply (IH (y :: ys) (i + 1) r xl'); [|exact H]. rewrite <- E.
+      exact (all_XInvI_step_all xl e A).
+Qed.
+
+(* every candidate state of the checker satisfies the internal-value invariant for its [x_ieff] *)
+Theorem xrun_sound_internals : forall evs r xl,
+  xrun [xinit] evs 0 = (r, xl) -> forall x, In x xl -> IInv (x_ieff x) (x_d x).
+Proof.
+  intros evs r xl H x Hx.
+  assert (A : all_XInvI xl).
+  { apply (xrun_all_XInvI evs [xinit] 0 r xl); [|exact H].
+    intros y [Hy|[]]. subst y. split; [exact DInv_init | exact IInv_init]. }
+  exact (proj2 (A x Hx)).
+Qed.
+
+(* XObserveInt: the replay test is implied by the model test *)
+Theorem observe_int_property_implied : forall x ints,
+  IInv (x_ieff x) (x_d x) -> d_up (x_d x) = true ->
+  map (fun p : Z * option Z => (fst p, assoc_first (fst p) (internal (d_core (x_d x))))) ints
+  = map (fun p => (fst p, ints_after (x_ieff x) (length (x_ieff x)) (fst p))) ints.
+Proof.
+  intros x ints I Hup. apply map_ext. intros p. rewrite (ii_cur _ _ I Hup).
+  unfold ints_after. rewrite firstn_all. reflexivity.
+Qed.
+
+(* XRollbackPoints / XPointState: for the record found under an epoch, the internal values the
+   model test compares with are the replayed internal calls of the batches it covers *)
+Theorem point_internals_property_implied : forall x ep b k ints,
+  IInv (x_ieff x) (x_d x) ->
+  find_rec ep (d_bolt (x_d x)) = Some b -> assocZ ep (d_nb (x_d x)) = Some k ->
+  map (fun p : Z * option Z => (fst p, assoc_first (fst p) (br_int b))) ints
+  = map (fun p => (fst p, ints_after (x_ieff x) k (fst p))) ints.
+Proof.
+  intros x ep b k ints I Hf Hk. unfold find_rec in Hf. apply find_some in Hf. destruct Hf as [Hb He].
+  apply Z.eqb_eq in He. destruct (ii_bolt _ _ I b Hb) as [k' [Hk' Hv]]. rewrite He, Hk in Hk'.
+  injection Hk' as Hk'. subst k'. apply map_ext. intros p. rewrite Hv. reflexivity.
 Qed.
